@@ -110,6 +110,7 @@ type Run struct {
 	Steps               int
 	BlockedBehindParked bool // the worker waits for a lock that a worker parked at a yield point may hold (a lock is held across a yield point)
 	InternalPreempts    int  // switches away from a worker parked at a yield point inside an operation
+	ReentrantPushes     int  // records pushed from inside callbacks (RePush programs)
 }
 
 // Finding is one oracle refutation.
@@ -129,6 +130,9 @@ type sched struct {
 	curOp            []*opRec // per worker
 	findings         []Finding
 	reentered        bool
+	reenteredInClose bool
+	noReenter        bool // set for the harness's own final Close
+	goids            []int64
 	closeInvokedStep int // step at which the first Close was invoked (-1 none)
 	cbDepth          int
 	trace            fnvHash
@@ -226,10 +230,20 @@ func (s *sched) ReassemblyComplete(msgs []*auparse.AuditMessage) {
 			s.cbDepth--
 		}
 	case RePush:
-		if !s.reentered {
+		// once from the first callback of the run, and once more from the first callback made by a
+		// worker's Close (the flush): a callback must be free to push whoever delivers it
+		inClose := s.curOp[s.current] != nil && s.curOp[s.current].kind == Close && s.curOp[s.current].returnStep < 0
+		if !s.reentered || (inClose && !s.reenteredInClose && !s.noReenter) {
+			seq := uint32(900)
+			if s.reentered {
+				seq = 901
+			}
 			s.reentered = true
-			m := &auparse.AuditMessage{RecordType: 1300, Sequence: 900, RawData: "audit(1.000:900): reentrant"}
-			mi := &msgInfo{id: 1000, worker: s.current, seq: 900, kind: PushNC, invokeStep: s.step, returnStep: -1, reentrant: true}
+			if inClose {
+				s.reenteredInClose = true
+			}
+			m := &auparse.AuditMessage{RecordType: 1300, Sequence: seq, RawData: fmt.Sprintf("audit(1.000:%d): reentrant", seq)}
+			mi := &msgInfo{id: 100 + int(seq), worker: s.current, seq: seq, kind: PushNC, invokeStep: s.step, returnStep: -1, reentrant: true}
 			s.msgs = append(s.msgs, mi)
 			s.byPtr[m] = mi
 			s.r.PushMessage(m)
@@ -257,7 +271,7 @@ func Execute(p *Program, prefix []int, chooser func(depth, n int) int) *Run {
 	Install()
 	nw := len(p.Threads)
 	s := &sched{p: p, events: make(chan event), resume: make([]chan struct{}, nw), byPtr: map[*auparse.AuditMessage]*msgInfo{},
-		curOp: make([]*opRec, nw), closeInvokedStep: -1}
+		curOp: make([]*opRec, nw), closeInvokedStep: -1, goids: make([]int64, nw)}
 	r, err := libaudit.NewReassembler(p.Max, time.Hour, s)
 	if err != nil {
 		return &Run{Findings: []Finding{{"new-error", err.Error()}}}
@@ -302,6 +316,7 @@ func Execute(p *Program, prefix []int, chooser func(depth, n int) int) *Run {
 				}
 				s.events <- event{w: w, done: true}
 			}()
+			s.goids[w] = goid()
 			for i, o := range p.Threads[w] {
 				s.events <- event{w: w, point: "op"}
 				<-s.resume[w]
@@ -377,8 +392,28 @@ func Execute(p *Program, prefix []int, chooser func(depth, n int) int) *Run {
 		s.current = w
 		s.step++
 		s.resume[w] <- struct{}{}
-		select {
-		case ev := <-s.events:
+		var ev event
+		got, expired := false, false
+		poll := 5 * time.Millisecond
+		for !got && !expired {
+			pt := time.NewTimer(poll)
+			select {
+			case ev = <-s.events:
+				got = true
+			case <-timer.C:
+				expired = true
+			case <-pt.C:
+				// normally a step takes microseconds. Is the worker waiting for a library mutex? Only the
+				// scheduled worker runs, so a mutex wait cannot end by itself: decide now instead of after 10 s.
+				if workerWaitsForLibauditLock(s.goids[w]) {
+					expired = true
+				} else if poll < time.Second {
+					poll *= 2
+				}
+			}
+			pt.Stop()
+		}
+		if got {
 			if ev.done {
 				done[ev.w] = true
 				s.trace.add(ev.w, "done")
@@ -386,10 +421,8 @@ func Execute(p *Program, prefix []int, chooser func(depth, n int) int) *Run {
 				s.trace.add(ev.w, ev.point)
 				lastPoint[ev.w] = ev.point
 			}
-		case <-timer.C:
-			buf := make([]byte, 1<<20)
-			buf = buf[:runtime.Stack(buf, true)]
-			run.Dump = string(buf)
+		} else {
+			run.Dump = goroutineBlock(dumpAll(), s.goids[w])
 			run.Timeout = true
 			// A lock wait is a deadlock only when no parked worker can be the holder: every other
 			// worker is finished or parked between operations (where it holds no library lock).
@@ -429,8 +462,8 @@ func Execute(p *Program, prefix []int, chooser func(depth, n int) int) *Run {
 	if closes == 0 {
 		// flush so that exactly-once can be decided for every message
 		s.current = 0
-		s.reentered = true // the flush below is the harness's own call: no re-entrant push into a closed Reassembler
-		registry.Delete(r) // no more parking: the harness itself is the only caller now
+		s.reentered, s.noReenter = true, true // the flush below is the harness's own call: no re-entrant push into a closed Reassembler
+		registry.Delete(r)                    // no more parking: the harness itself is the only caller now
 		if err := r.Close(); err != nil {
 			s.fail("final-close-error", "Close after all workers returned: %v", err)
 		}
@@ -450,6 +483,11 @@ func Execute(p *Program, prefix []int, chooser func(depth, n int) int) *Run {
 		}
 	}
 	run.Findings = s.findings
+	for _, mi := range s.msgs {
+		if mi.reentrant {
+			run.ReentrantPushes++
+		}
+	}
 	return run
 }
 
@@ -460,6 +498,41 @@ func closeReturnStep(s *sched) int {
 		}
 	}
 	return -1
+}
+
+// goid returns the id of the calling goroutine (parsed from its stack header).
+func goid() int64 {
+	var b [64]byte
+	n := runtime.Stack(b[:], false)
+	var id int64
+	fmt.Sscanf(string(b[:n]), "goroutine %d ", &id)
+	return id
+}
+
+// goroutineBlock returns the stack of goroutine id from a full dump ("" when it is not there).
+func goroutineBlock(dump string, id int64) string {
+	head := fmt.Sprintf("goroutine %d [", id)
+	for _, g := range strings.Split(dump, "\n\n") {
+		if strings.HasPrefix(g, head) {
+			return g
+		}
+	}
+	return ""
+}
+
+// dumpAll returns the stacks of all goroutines (abandoned schedules leave blocked goroutines behind,
+// so the buffer grows until the dump fits).
+func dumpAll() string {
+	for n := 1 << 20; ; n *= 4 {
+		buf := make([]byte, n)
+		if m := runtime.Stack(buf, true); m < n || n >= 1<<28 {
+			return string(buf[:m])
+		}
+	}
+}
+
+func workerWaitsForLibauditLock(id int64) bool {
+	return IsLibauditLockWait(goroutineBlock(dumpAll(), id))
 }
 
 // IsLibauditLockWait reports whether a goroutine dump shows a goroutine blocked
@@ -494,7 +567,11 @@ type ExploreResult struct {
 	BlockedBehindParked bool
 	Dump                string
 	Truncated           bool
+	Pruned              int64 // schedules dropped because the chosen worker waited for a lock held by a parked worker
 }
+
+// MaxPruned bounds the schedules dropped per program (each leaks its blocked goroutines).
+const MaxPruned = 3000
 
 // Explore enumerates every schedule of p (preemption-bounded when bound >= 0,
 // capped at maxSchedules). It stops at the first schedule with findings.
@@ -510,6 +587,13 @@ func Explore(p *Program, bound int, maxSchedules int64) *ExploreResult {
 		res.SumDepth += int64(len(run.Choices))
 		if run.InternalPreempts > 0 {
 			res.Traces[run.TraceH] = struct{}{}
+		}
+		if run.BlockedBehindParked && len(run.Findings) == 0 && res.Pruned < MaxPruned {
+			// the chosen worker was not really enabled: it waits for a lock that a worker parked inside an
+			// operation holds (a lock held across a yield point or callback). The choice is infeasible, not
+			// wrong: drop this schedule and go on with the alternatives (the parked holder among them).
+			res.Pruned++
+			run.Timeout = false
 		}
 		if len(run.Findings) > 0 || run.Timeout {
 			res.Findings = run.Findings
